@@ -33,7 +33,7 @@ Observations outside the properties' quantifiers (evidence only, no verdict):
 
 Mutation testing (scratch worktrees /tmp/medium-m-*, `VERIF_REPO=<wt> ./check Cxx`; C13 mutations on HEAD + the repair
 above so that the baseline is exit 0):
- C13  keep the OLDEST publication per key ............... exit 1  trace:latest:older-publication (+ replay after the monitor fix)
+ C13  keep the OLDEST publication per key ............... exit 1  latest:older-publication, trace:latest:older-publication
       join/leave emitted after the publications ........ exit 1  latest:nonpub-after-pub
       size flush drops the item that triggered it ...... exit 1  normal:skipped, lost-on-flush:*
       delWriter(false) still flushes ................... exit 1  discard-flushed:delWriter
